@@ -303,11 +303,32 @@ structure SolveResult (α : Type) where
 
 def SolveResult.passes (r : SolveResult α) : Nat := r.traj.length
 
-/-- `solve()` -/
+/-- `get_normq(); get_normb()` on the problem data (`DefaultProblemData::get_normq / get_normb`,
+`problemdata.rs`): the value returned is CACHED — a cache that is `None` is filled with the norm
+computed from the current `q` (`b`) and the equilibration, a cache that is `Some(v)` is left as it is
+(possibly STALE after a rejected partial `update_q` / `update_b`). -/
+def fillNorms (d : ProblemData α) : MErr (ProblemData α) := do
+  let nq ← Info.getNormq d.normq d.q d.equilibration.dinv d.equilibration.c
+  let nb ← Info.getNormb d.normb d.b d.equilibration.einv
+  pure { d with normq := some nq, normb := some nb }
+
+/-- `solve()`.
+
+THE NORM CACHES.  `DefaultInfo::update` calls `data.get_normq()` / `data.get_normb()` at the top of
+EVERY pass, and these FILL the caches `data.normq` / `data.normb` when they are `None`; the loop makes
+at least one pass, so after every `solve()` that returned both caches of the solver object are
+`Some(_)`.  Within one `solve()` nothing else writes the problem data, and `get_norm*` on a filled
+cache returns the cached value, so the values read in every pass are those `topNumerics` computes
+from the caches AT ENTRY; the caches of the RETURNED object are stored here, once, after the loop
+(`fillNorms`).  That this is the same function as the one that stores them in the pass, at
+`Info.update`, where the code does it (`Solver.solveC`, `ClarabelModel/Solver/SolveC.lean`), is
+`Solver.solveC_eq_solve` (`ClarabelProofs/Lemmas/SolverNormCaches.lean`). -/
 def Solver.solve (S : Solver α) (st : Settings α) : MErr (SolveResult α) := do
   let L ← S.st.runSolve st
   let r ← finish st L S.solution
-  pure { S := { st := r.1, solution := r.2 }, traj := L.traj }
+  -- the caches `Info.update` filled (`get_normq` / `get_normb`)
+  let data ← fillNorms r.1.data
+  pure { S := { st := { r.1 with data := data }, solution := r.2 }, traj := L.traj }
 
 end
 
